@@ -128,6 +128,16 @@ def run(rep, tier, rng):
                         add(f"{chk} {cdims} {cq(x, va)} {cq(y, vb)} {tol} {obs_t(o, enc_num)}",
                             dict(base, op=nm, py=f"a.{nm}(b)" if nm != "@" else "a @ b", pyab=pyab, obs=repr(o)[:300]),
                             (nm, al, d, tuple(x), tuple(y), va, vb))
+                    # compare / distance are cosines: the same for operands of tiny magnitude (exact powers of two)
+                    if any(x) and any(y) and va == vb:
+                        for e2 in (-14, -34):
+                            a_s = SemanticPointer(algs.fl(x) * 2.0 ** e2, vocab=None if va is None else vocs[va], algebra=None if va is not None else A)
+                            b_s = SemanticPointer(algs.fl(y) * 2.0 ** e2, vocab=None if vb is None else vocs[vb], algebra=None if vb is not None else A)
+                            for nm, chk, fn in [("compare", "check_sp_compare", lambda: a_s.compare(b_s)), ("distance", "check_sp_distance", lambda: a_s.distance(b_s))]:
+                                o = c.observe(fn)
+                                add(f"{chk} {cdims} {cq(x, va)} {cq(y, vb)} {tol} {obs_t(o, enc_num)}",
+                                    dict(base, op=nm + "-small-operands", py=f"(a * 2.0**{e2}).{nm}(b * 2.0**{e2})", pyab=pyab, obs=repr(o)[:300]),
+                                    (nm + "-small", e2, al, d, tuple(x), tuple(y), va, vb))
                     check_unchanged([a, b2], snaps, "binary operators / methods")
                     # ---- unary ------------------------------------------------
                     for p, vec, voc, nm in ((a, x, va, "a"), (b2, y, vb, "b")):
